@@ -1,5 +1,6 @@
 import CacheVerif.Proofs.Wrappers
 import CacheVerif.Proofs.TableRefine
+import CacheVerif.Proofs.DeepAppend
 /-!
 # C11 — contents never depend on capacity, resize history, hash seed or bucket layout
 
@@ -122,5 +123,36 @@ theorem C11_methods_are_doCompute_calls {K V : Type} [DecidableEq K] [Inhabited 
     Model.Table.step var env m (.delete k) = Proofs.Wrappers.viaWrapper var env m k g Gen.Deep.Map_Delete v 0 ∧
     Model.Table.step var env m (.delete k) = Proofs.Wrappers.viaWrapper var env m k g Gen.Deep.MapOf_Delete v 0 :=
   ⟨rfl, rfl, rfl, rfl, rfl, rfl, rfl, rfl, rfl, rfl, rfl, rfl⟩
+
+/-! ### `appendToBucketOf`, printed from the source: what a resize does with every entry it moves -/
+
+omit [Inhabited V] in
+/-- **the text of `appendToBucketOf` is M3's `place`** - the first *writing* function of the table layer inside the deep
+embedding (`go2deep -table`, `Deep/TInterp.lean`: `execW`, the heap is part of the state).  For every heap, every non-empty
+chain of five-slot buckets, every hash byte and entry, and every sufficient loop budget, the call ends (it is never stuck)
+in the heap in which that chain is `appendSpec` of the old one; on the slots that is `place 5` (first free slot of the
+chain, else a new bucket at its end - where an entry lands depends on the chain's slots only); and the `meta` words
+still represent their entries (`RepB`), so the lookup theorems of C10 apply to the result -/
+theorem C11_source_append_is_place (hk : K → BitVec 8) (fuel : Nat) (hf : 6 ≤ fuel) (h : Deep.T.Heap K V) (k : K) (v : V)
+    (ci : Nat) (c : List (Model.Words.BucketOf K V)) (hc : h.chains[ci]? = some c) (hne : c ≠ []) (hfuel : c.length ≤ fuel)
+    (hrep : ∀ b ∈ c, Model.Words.RepB hk b) :
+    Deep.T.callW fuel h Gen.Deep.T_appendToBucketOf [.w8 (hk k), .entry k v, .bucketRef ci 0] =
+      some ({ h with chains := h.chains.set ci (Proofs.DeepAppend.appendSpec (hk k) k v c) }, []) ∧
+    Model.Words.flat (Proofs.DeepAppend.appendSpec (hk k) k v c) = place 5 k v (Model.Words.flat c) ∧
+    (∀ b ∈ Proofs.DeepAppend.appendSpec (hk k) k v c, Model.Words.RepB hk b) :=
+  ⟨Proofs.DeepAppend.append_eq_spec fuel hf h (hk k) k v ci c hc hne hfuel (fun b hb => (hrep b hb).1),
+   Proofs.DeepAppend.appendSpec_flat (hk k) k v c hne (fun b hb => (hrep b hb).1),
+   Proofs.DeepAppend.appendSpec_rep hk k v c hrep⟩
+
+/-! Non-vacuity: a free slot in the root bucket is filled; a full one-bucket chain gets a new bucket. -/
+def exFullB : Model.Words.BucketOf Nat Nat := ⟨0#64, [some (1, 1), some (2, 2), some (3, 3), some (4, 4), some (5, 5)]⟩
+def exAppHeap : Deep.T.Heap Nat Nat :=
+  { chains := [[⟨Gen.defaultMeta, [none, none, none, none, none]⟩], [exFullB]], seed := 0#64, hasher := fun _ _ => 0#64 }
+
+example : (Deep.T.callW 6 exAppHeap Gen.Deep.T_appendToBucketOf [.w8 3#8, .entry 7 70, .bucketRef 0 0]).map (·.1.chains) =
+    some [[⟨Gen.setByte Gen.defaultMeta 3#8 0, [some (7, 70), none, none, none, none]⟩], [exFullB]] := by rfl
+example : (Deep.T.callW 6 exAppHeap Gen.Deep.T_appendToBucketOf [.w8 3#8, .entry 7 70, .bucketRef 1 0]).map (·.1.chains) =
+    some [[⟨Gen.defaultMeta, [none, none, none, none, none]⟩],
+          [exFullB, ⟨Gen.setByte Gen.defaultMeta 3#8 0, [some (7, 70), none, none, none, none]⟩]] := by rfl
 
 end Props.C11
